@@ -1,5 +1,6 @@
 import PhysisModel.Proofs.Shpk
 import PhysisModel.Proofs.Mtrl
+import PhysisModel.Proofs.Half
 import PhysisModel.Properties.C12
 /-!
 # C14 — materials and shader packages decode to what their files store
@@ -206,6 +207,34 @@ example : Spec.Mtrl.wfLegacyDye ⟨2047, true, true, false, true, false⟩ = tru
 example : Spec.Mtrl.wfDawntrailDye
     ⟨⟨2047, 3, true, false, true, false, true, false, true, false, true, false, true, true⟩, 0xE000F000⟩ = true := by
   decide
+
+/-! ## what a stored half means -/
+
+/-- `halfToF32` (the `f16::to_f32` of the colour-table readers) is exact: for **every finite half**
+the binary32 result is finite and denotes the same real number — `|v|·2^149` of the result equals
+`|v|·2^24` of the half times `2^125` (IEEE-754 decoding, `Spec/HalfValue.lean`). -/
+theorem c14_half_value (h : UInt16) (hfin : (h >>> 10) &&& 0x1F ≠ 0x1F) :
+    Spec.HalfValue.f32Mag (halfToF32 h) = Spec.HalfValue.halfMag h <<< 125 ∧
+      (halfToF32 h >>> 23) &&& 0xFF ≠ 0xFF :=
+  halfToF32_value h hfin
+
+/-- the sign bit is kept; zero, infinity and NaN are mapped to zero, infinity and NaN -/
+theorem c14_half_sign_classes (a : UInt16) :
+    halfToF32 a >>> 31 = (a >>> 15).toUInt32 ∧
+    ((halfToF32 a &&& 0x7FFFFFFF = 0) ↔ (a &&& 0x7FFF = 0)) ∧
+    ((halfToF32 a &&& 0x7FFFFFFF = 0x7F800000) ↔ (a &&& 0x7FFF = 0x7C00)) ∧
+    ((halfToF32 a &&& 0x7FFFFFFF > 0x7F800000) ↔ (a &&& 0x7FFF > 0x7C00)) :=
+  ⟨halfToF32_sign a, halfToF32_classes a⟩
+
+/-- sanity (tests): 1.0, the smallest subnormal 2⁻²⁴, the largest finite 65504, −2.0; and the
+decoders on 1.0 -/
+example : halfToF32 0x3C00 = 0x3F800000 := by decide
+example : halfToF32 0x0001 = 0x33800000 := by decide
+example : halfToF32 0x7BFF = 0x477FE000 := by decide
+example : halfToF32 0xC000 = 0xC0000000 := by decide
+example : Spec.HalfValue.f32Mag 0x3F800000 = 1 <<< 149 := by decide
+example : Spec.HalfValue.halfMag 0x3C00 = 1 <<< 24 := by decide
+example : ((0x0001 : UInt16) >>> 10) &&& 0x1F ≠ 0x1F := by decide
 
 /-! ## shader-key CRC -/
 
